@@ -57,6 +57,7 @@ static struct {
   string path;
   bool on = false;
   int total = 0, ext_held = 0, ext_max = 0, moves_left = 0;
+  char byte = '+';
 } g_js;
 
 bool JsOn() { return g_js.on; }
@@ -84,7 +85,8 @@ void JsBegin(const RunConfig& cfg) {
   }
   char c;
   while (read(g_js.fd, &c, 1) == 1) {}
-  for (int i = 0; i < cfg.js_tokens; ++i) (void)!write(g_js.fd, "+", 1);
+  g_js.byte = (char)cfg.js_byte;
+  for (int i = 0; i < cfg.js_tokens; ++i) (void)!write(g_js.fd, &g_js.byte, 1);
   g_js.ext_held = cfg.js_ext_held;
   g_js.ext_max = max(cfg.js_ext_max, cfg.js_ext_held);
   g_js.moves_left = cfg.js_moves;
@@ -130,7 +132,7 @@ static void JsExternalMoves() {
       if (read(g_js.fd, &ch, 1) == 1) g_js.ext_held++;
       e.status = -1;
     } else {
-      (void)!write(g_js.fd, "+", 1);
+      (void)!write(g_js.fd, &g_js.byte, 1);
       g_js.ext_held--;
       e.status = +1;
     }
